@@ -165,7 +165,7 @@ Definition run_spec (c : case) : string :=
 Definition ecase := (link * list (N * N) * list (N * pstate) * auth_cfg * list sevent)%type.
 Definition show_run_end {E} (she : E -> string) (e : run_end E) : string :=
   match e with
-  | ROpen => "open" | RBlocked _ => "blocked" | RShutdown => "Shutdown" | RIo => "Io" | RError x => she x | RPanic => "PANIC"
+  | ROpen => "open" | RBlocked _ => "blocked" | RShutdown => "Shutdown" | RIo => "Io" | RReader => "ReadError" | RError x => she x | RPanic => "PANIC"
   end.
 Definition run_spec_ev (c : ecase) : string :=
   let '(l, m, hs, a, evs) := c in
